@@ -1,6 +1,7 @@
 ------------------------------- MODULE MC_Forest -------------------------------
 EXTENDS Forest
-V(i, u, ar, t) == [id |-> i, uid |-> u, arches |-> ar, type |-> t]
+V(i, u, ar, t) == [id |-> i, uid |-> u, flat |-> Flat(u), arches |-> ar, type |-> t]
+SeqChild(p, i) == Append(p, i)
 MCObj == [ a    |-> V("A", <<"A">>, {"x", "y"}, "variant"),
            aa   |-> V("A", <<"A", "A">>, {"x"}, "variant"),          \* same id as its parent
            ab   |-> V("B", <<"A", "B">>, {"x", "y"}, "addon"),
